@@ -1298,3 +1298,112 @@ pub fn cell_default_from(v: u8) -> (u8, u8) {
     let b = Holder { c: core::cell::Cell::from(v) };
     (a.c.get(), b.c.get())
 }
+
+// ---- round 8 idioms -----------------------------------------------------------------------------------------
+use core::marker::PhantomData;
+
+pub struct NoBody;
+pub struct HasBody;
+pub struct Builder<'a, S> {
+    buf: &'a mut [u8],
+    pos: usize,
+    _s: PhantomData<S>,
+}
+
+impl<'a> Builder<'a, NoBody> {
+    pub fn new(buf: &'a mut [u8]) -> Self {
+        Builder { buf, pos: 0, _s: PhantomData }
+    }
+    pub fn header(self, h: [u8; 2]) -> Builder<'a, HasBody> {
+        let Builder { buf, pos, .. } = self;
+        buf[pos..pos + 2].copy_from_slice(&h);
+        Builder { buf, pos: pos + 2, _s: PhantomData }
+    }
+}
+
+impl<'a> Builder<'a, HasBody> {
+    pub fn body(mut self, b: &[u8]) -> usize {
+        self.buf[self.pos..self.pos + b.len()].copy_from_slice(b);
+        self.pos += b.len();
+        self.pos
+    }
+}
+
+pub fn typestate_builder(buf: &mut [u8], h: [u8; 2], b: &[u8; 3]) -> usize {
+    Builder::new(buf).header(h).body(b)
+}
+
+pub struct Parts<'a> {
+    items: [Option<&'a [u8]>; 3],
+    next: usize,
+}
+
+impl<'a> Iterator for Parts<'a> {
+    type Item = &'a [u8];
+    fn next(&mut self) -> Option<&'a [u8]> {
+        while self.next < self.items.len() {
+            let i = self.next;
+            self.next += 1;
+            if let Some(p) = self.items[i] {
+                return Some(p);
+            }
+        }
+        None
+    }
+}
+
+pub fn custom_iterator(buf: &mut [u8], a: &[u8; 1], extra: &Option<&[u8]>, data: &[u8]) -> usize {
+    let parts = Parts { items: [Some(&a[..]), *extra, Some(data)], next: 0 };
+    let mut pos = 0;
+    for p in parts {
+        buf[pos..pos + p.len()].copy_from_slice(p);
+        pos += p.len();
+    }
+    pos
+}
+
+pub fn cursor_take(buf: &mut [u8], h: &[u8; 4], b: u8) -> usize {
+    let total = buf.len();
+    let mut cursor = &mut buf[..];
+    let (head, rest) = core::mem::take(&mut cursor).split_at_mut(4);
+    head.copy_from_slice(h);
+    cursor = rest;
+    let (one, rest) = core::mem::take(&mut cursor).split_at_mut(1);
+    one[0] = b;
+    cursor = rest;
+    total - cursor.len()
+}
+
+pub fn option_combinators(a: Option<u8>, b: Option<u8>) -> (u8, bool, Option<u8>) {
+    (a.or(b).unwrap_or_default(), a.xor(b).is_some(), a.and(b).or_else(|| Some(7)))
+}
+
+pub fn option_transpose(x: Option<u8>) -> Result<Option<u8>, u8> {
+    x.map(|v| if v < 0x80 { Ok(v) } else { Err(v) }).transpose()
+}
+
+pub fn option_take_field(o: &mut Option<u8>) -> u8 {
+    o.take().map_or_else(|| 0xEE, |v| v ^ 1)
+}
+
+pub fn word_pack(version: u8, dest: u8, som: bool) -> [u8; 4] {
+    let w: u32 = (u32::from(version & 0x0F) << 24) | (u32::from(dest) << 16) | (u32::from(som) << 7);
+    w.to_be_bytes()
+}
+
+pub fn mask_from_not(n: u32, x: u8) -> u8 {
+    let m = (!0u8).checked_shr(n).unwrap_or(0);
+    x & m
+}
+
+pub fn identity_map(data: &[u8; 3]) -> u8 {
+    data.iter().copied().map(core::convert::identity).fold(0, |a, b| a | b)
+}
+
+pub fn result_infallible(x: u8) -> u8 {
+    let r: Result<u8, core::convert::Infallible> = Ok(x);
+    match r {
+        Ok(v) => v,
+        Err(e) => match e {},
+    }
+}
